@@ -3,8 +3,9 @@
 copies a confirmed seeded change from /tmp/seed-<tag>-out/<n> to /verif/seeded/<PROP>-<n>/ (patch.diff, demo/, meta.json)"""
 import sys, os, json, shutil
 tag, n, prop, caught, how = sys.argv[1:6]
+name = sys.argv[6] if len(sys.argv) > 6 else n   # archive suffix (round-2 seeds: r2-<n>)
 src = '/tmp/seed-%s-out/%s' % (tag, n)
-dst = '/verif/seeded/%s-%s' % (prop, n)
+dst = '/verif/seeded/%s-%s' % (prop, name)
 os.makedirs(dst, exist_ok=True)
 shutil.copy(os.path.join(src, 'patch.diff'), os.path.join(dst, 'patch.diff'))
 if os.path.exists(os.path.join(src, 'patch.orig.diff')):
